@@ -22,7 +22,8 @@ PngBits(b) == [r |-> (b \div 16) % 4, g |-> (b \div 4) % 4, bl |-> b % 4, a |-> 
 VARIABLES kind, x, y
 vars == <<kind, x, y>>
 Init == kind = "init" /\ x = 0 /\ y = 0
-Next == \/ \E l \in 0..255, m \in 0..255 : kind' = "note" /\ x' = l /\ y' = m
+Next == kind = "init" /\
+        \/ \E l \in 0..255, m \in 0..255 : kind' = "note" /\ x' = l /\ y' = m
         \/ \E b \in 0..255 : kind' = "gfx" /\ x' = b /\ y' = 0
         \/ \E b \in 0..255 : kind' = "png" /\ x' = b /\ y' = 0
         \/ \E f \in 0..7, c \in {0, 1, 63, 64, 65, 127} : kind' = "music" /\ x' = f /\ y' = c
